@@ -19,6 +19,7 @@ func VerifC13_verify_equals_stdlib() {
 	vAssume(err == nil)
 	hash := vBytesC("hash", 0, vBound("C13_diff_hash_len", 1, 3))
 	var r, s *big.Int
+	class := "" // one assertion label per input class: each class gets its own native replay
 	if vBool("honest_signature") {
 		// a signature made by the fork's own Sign (natively a valid one: a verifier that has drifted
 		// from the standard one is then caught red-handed on replay)
@@ -29,6 +30,17 @@ func VerifC13_verify_equals_stdlib() {
 		rb, sb := r.Bytes(), s.Bytes()
 		vAssume(len(rb) == bl && len(sb) == bl && rb[0] != 0 && sb[0] != 0)
 		r, s = new(big.Int).SetBytes(rb), new(big.Int).SetBytes(sb)
+		class = "-on-honest-signature"
+		switch vSplit(vInt("malleation", 0, 2), 0, 2) {
+		case 1:
+			class = "-on-s-plus-n"
+			// s + n: the same residue, but not a number below the order (natively the honest
+			// signature makes a verifier that forgot the upper bound accept)
+			s = new(big.Int).SetBytes(c13AddBytes(sb, c.Params().N.Bytes()))
+		case 2:
+			class = "-on-r-plus-n"
+			r = new(big.Int).SetBytes(c13AddBytes(rb, c.Params().N.Bytes()))
+		}
 	} else if vBool("near_order") {
 		bl := (c.Params().BitSize + 7) / 8
 		rb, sb := vBytesC("r", bl, bl), vBytesC("s", bl, bl)
@@ -40,10 +52,26 @@ func VerifC13_verify_equals_stdlib() {
 	}
 	got := Verify(&priv.PublicKey, hash, r, s)
 	want := stdecdsa.Verify(&stdecdsa.PublicKey{Curve: c, X: priv.PublicKey.X, Y: priv.PublicKey.Y}, hash, r, s)
-	vAssert(got == want, "verdict-equals-stdlib")
+	vAssert(got == want, "verdict-equals-stdlib"+class)
 	if got {
 		vReach("accepted")
 	} else {
 		vReach("rejected")
 	}
+}
+
+// a + b on big-endian byte strings of equal length; the result is one byte longer
+func c13AddBytes(a, b []byte) []byte {
+	out := make([]byte, len(a)+1)
+	var carry uint16
+	for i := len(a) - 1; i >= 0; i-- {
+		v := uint16(a[i]) + carry
+		if j := i - (len(a) - len(b)); j >= 0 && j < len(b) {
+			v += uint16(b[j])
+		}
+		out[i+1] = byte(v)
+		carry = v >> 8
+	}
+	out[0] = byte(carry)
+	return out
 }
